@@ -90,6 +90,23 @@ class _NullBytes(io.RawIOBase):
         return len(b)
 
 
+class _FailingText:
+    encoding = "utf-8"
+    errors = "strict"
+
+    def __init__(self, exc):
+        self.exc = exc
+
+    def write(self, s):
+        raise self.exc
+
+    def flush(self):
+        raise self.exc
+
+    def isatty(self):
+        return False
+
+
 class quiet_stdout:
     """replace sys.stdout by a sink with a chosen *encoding* (the library prints diagnostics; whether
     printing can fail depends on the encoding, which is a configuration the properties quantify over)"""
@@ -99,6 +116,20 @@ class quiet_stdout:
 
     def __enter__(self):
         self.old = sys.stdout
+        if self.encoding.startswith("broken:"):
+            # a stdout that cannot take text: device full / broken pipe (OSError), closed file object (ValueError), no stdout at all (pythonw, daemons)
+            kind = self.encoding.split(":", 1)[1]
+            if kind == "full":
+                sys.stdout = _FailingText(OSError(28, "No space left on device"))
+            elif kind == "pipe":
+                sys.stdout = _FailingText(BrokenPipeError(32, "Broken pipe"))
+            elif kind == "closed":
+                f = io.StringIO()
+                f.close()
+                sys.stdout = f
+            else:
+                sys.stdout = None
+            return self
         sys.stdout = io.TextIOWrapper(io.BufferedWriter(_NullBytes()), encoding=self.encoding, errors="strict")
         return self
 
